@@ -213,8 +213,7 @@ Proof.
   intro HS. split; intros [H1 H2]; split.
   - apply Qle_shift_div_r; assumption.
   - apply Qlt_shift_div_l; assumption.
-  - apply Qle_shift_div_r in H1 || idtac. 
-    assert (c == (c / S) * S) by (field; lra). rewrite H. nra.
+  - assert (c == (c / S) * S) by (field; lra). rewrite H. nra.
   - assert (c' == (c' / S) * S) by (field; lra). rewrite H. nra.
 Qed.
 
